@@ -50,6 +50,7 @@ func freshKey(w *World, salt uint64) ed25519.PrivateKey {
 
 var c09Kinds = []string{"payload-byte-flipped", "payload-truncated", "signature-bit-flipped", "signature-truncated", "signature-empty",
 	"sender-renamed-to-other-participant", "sender-renamed-to-stranger", "resigned-with-other-participants-key", "resigned-with-fresh-key",
+	"altered-payload-under-an-earlier-signature-of-the-sender",
 	"forged-in-the-name-and-id-of-another-participant"}
 
 // mutateAuth produces an unauthenticated variant of a genuine message.
@@ -132,6 +133,22 @@ func mutateAuth(w *World, m storage.Message, by int, kind string) storage.Messag
 			x.Signature = ed25519.Sign(freshKey(w, uint64(len(w.Board.Msgs))+7), x.Bytes())
 		} else {
 			x.Signature = ed25519.Sign(w.Nodes[by].Priv, x.Bytes())
+		}
+	case "altered-payload-under-an-earlier-signature-of-the-sender":
+		// a signature the sender really made (and every node has already verified) -
+		// but for another message; the payload underneath it is altered
+		var earlier []storage.Message
+		for _, e := range w.Board.Msgs {
+			if e.SenderAddr == m.SenderAddr && e.DkgRoundID == m.DkgRoundID && w.Board.Injected[e.Offset] == nil && len(e.Signature) > 0 {
+				earlier = append(earlier, e)
+			}
+		}
+		if len(earlier) == 0 {
+			return m
+		}
+		x.Signature = append([]byte(nil), earlier[w.Tape.Choose(len(earlier), "earlierSig")].Signature...)
+		if len(x.Data) > 0 && w.Tape.Bool(1, 2, "alsoAlter") {
+			x.Data[len(x.Data)/2] ^= 0x01
 		}
 	case "resigned-with-fresh-key":
 		if len(x.Data) > 0 {
